@@ -381,7 +381,7 @@ impl Formatter {
     if self.html {
       format!("<div class=\"mech-content\"><div class=\"mech-program\">{}{}{}</div></div>",title,body,formatted_works_cited)
     } else {
-      format!("{}{}{}",title,body,formatted_works_cited)
+      if title.is_empty() { format!("{}{}",body,formatted_works_cited) } else { format!("{}\n{}{}",title,body,formatted_works_cited) }
     }
   }
 
@@ -456,6 +456,7 @@ impl Formatter {
     let section_count = node.sections.len();
     for (i, section) in node.sections.iter().enumerate() {
       let s = self.section(section);
+      if !self.html && i > 0 { src.push('\n'); }
       src = format!("{}{}", src, s);
     }
     if self.html {
